@@ -19,7 +19,9 @@ Decided:
   R09.d  templates: the 500/404 debug templates escape every reference under ashes' filter semantics and
          nothing switches autoescaping off; the template names rendered are the ones registered;
   R09.e  the JSON body carries code/message/detail/error_type: to_json encodes self.to_dict(), the base
-         to_dict has the four keys, overrides extend the super() result.
+         to_dict has the four keys, overrides extend the super() result; base / override agreement on the other keys: a key an
+         override deletes, reads by subscript or pops without default from the mapping its base class's to_dict() returned is a
+         key that method stores on every path (or the access tolerates the missing key: pop(K, d), ``K in ret``, KeyError handler).
 Also decided (necessary conditions found clause by clause):
   R09.a  the handler's slots not_found_type / method_not_allowed_type / server_error_type hold error types with status 404 / 405 /
          500 in ErrorHandler and every subclass; every uncaught_to_response answers with an instance of a server_error_type slot;
@@ -31,7 +33,10 @@ Also decided (necessary conditions found clause by clause):
          family negotiates like the base one; the way an error takes to those renderers: every value a route's execute_error()
          returns is the result of running its render_error (never the error it was given, never nothing -- anything else is an
          exception), and where the application calls execute_error() a handler catching Exception answers, on every normal path,
-         with the default renderer; the response returned is one of those two results;
+         with the default renderer; the response returned is one of those two results; and no error leaves that function
+         unrendered: wherever it returns the variable it renders, every path from the last binding of the variable has run a
+         renderer or passed a test that the value is no HTTPException -- whichever way the loop over the routes ends (break,
+         return, exhaustion; the non-breaking error a later route hands back included);
   R09.c  to_html / to_xml are the methods each class of the family *resolves* to (mixins outside the family included); a
          to_escaped_dict() of a subclass obeys the same rule (or extends the inherited mapping with escaped values); placeholders of
          the constant templates never stand in a tag outside quotes; the folded template of to_xml, placeholders replaced by text,
@@ -56,6 +61,7 @@ from ..loader import ClassInfo, Unfoldable
 from ..astutil import assigned_value, argn, names_stored
 from ..layers import layers_of_var, layers_of_expr
 from .c20 import check_template_escaping, autoescape_writes
+from ..cfg import expand_conds
 from .common import (cfg_of, fkey, conds, has_cond, implies_absent, cond_texts, stmts_of, walk_body, call_tail, call_name,
                      returns_of, raises_of, raise_type, stmt_of, kwarg, protected_by)
 
@@ -1507,7 +1513,7 @@ def run(rep):
     rep.rule('R09.c', 'taint: instance fields reach HTML/XML templates only through html_escape(x, True), in the serialisers each class resolves to; '
                       'placeholders stay out of unquoted attribute position; the XML template is one well-formed element')
     rep.rule('R09.d', 'every reference of the shipped debug templates is escaped')
-    rep.rule('R09.e', 'to_json / to_dict field agreement')
+    rep.rule('R09.e', 'to_json / to_dict field agreement; keys an override takes from the inherited to_dict() are stored by it on every path')
 
     base = err.cls('HTTPException')
     fam = [base] + repo.subclasses(base, [err])
@@ -1923,6 +1929,82 @@ def check_error_fallback(rep, repo, app, renderers):
         ok = why is None
         rep.check('R09.b', fkey(fi, 'a failing route renderer falls back to the default renderer'), ok,
                   'the result of execute_error(...) or, on any Exception, of default_render_error(...) is the response' if ok else why, fi.mod, call)
+        if ok:
+            check_no_unrendered_error(rep, repo, fi, call, [st] + fb, is_fallback)
+
+
+def _is_error_test(repo, fi, t, var):
+    """``isinstance(var, HTTPException)`` (the class of the errors module, alone or in a tuple of classes)"""
+    if not (isinstance(t, ast.Call) and isinstance(t.func, ast.Name) and t.func.id == 'isinstance' and len(t.args) == 2 and norm(t.args[0]) == var):
+        return False
+    base = repo.mod(ERR).cls('HTTPException')
+    for x in (t.args[1].elts if isinstance(t.args[1], ast.Tuple) else [t.args[1]]):
+        if isinstance(x, (ast.Name, ast.Attribute)):
+            try:
+                r = repo.resolve_class(fi.mod, x)
+            except Exception:
+                r = None
+            if r is base:
+                return True
+    return False
+
+
+def check_no_unrendered_error(rep, repo, fi, call, render_stmts, is_fallback):
+    """The function that sends an error to the renderers returns no error that has not been there: wherever it returns the
+    variable it renders (the ``_error`` it hands to execute_error), every path from the last binding of that variable -- or from the
+    entry -- to the ``return`` either runs one of the rendering statements or passes a test that tells the value is not an
+    HTTPException.  That holds for every way the search for a route ends: by ``break`` / ``return`` inside the loop, by
+    exhaustion of the loop, and for the error a later route hands back unchanged (a non-breaking error that stays the answer).
+    An error that skips the renderers goes out as its constructor left it: text/plain whatever the client accepts."""
+    kws, opaque = call_keywords(fi, call)
+    ev = kws.get(ERROR_PARAM)
+    if ev is None and isinstance(call.func.value, ast.Attribute):
+        ev = call.func.value.value      # <error>.source_route.execute_error(...)
+    if not isinstance(ev, ast.Name):
+        raise AnalysisError('%s: the error handed to %s cannot be named' % (fi.qualname, short(call, 40)))
+    var = ev.id
+    cfg = cfg_of(fi)
+    rendered = set(cfg.nodes_of_all(render_stmts))
+    for s_ in stmts_of(fi.node):
+        v = s_.value if isinstance(s_, (ast.Return, ast.Assign)) else None
+        if isinstance(v, ast.Call) and (is_fallback(fi, v) or (isinstance(v.func, ast.Attribute) and v.func.attr == 'execute_error')):
+            rendered.update(cfg.nodes_of(s_))
+    cleared = set()
+    for n in cfg.nodes:
+        try:
+            cs = cfg.conds_at(n.id)
+            if n.kind == 'branch':      # the branch node itself stands for "the test came out this way"
+                cs = list(cs) + list(cfg._expand_named(expand_conds([(n.test, n.pol)]), n.id))
+        except AnalysisError:
+            continue
+        if has_cond(cs, lambda t: _is_error_test(repo, fi, t, var), False):
+            cleared.add(n.id)
+    binds = set()
+    for x in _name_stores(fi, var):
+        s_ = x if isinstance(x, ast.stmt) else stmt_of(fi.mod, x) if not isinstance(x, ast.ExceptHandler) else None
+        if isinstance(s_, ast.Assign) and len(s_.targets) == 1 and s_.targets[0] is x and isinstance(s_.value, ast.Constant):
+            cleared.update(cfg.nodes_of(s_))     # ``ret = None``: a constant is no error
+            continue
+        binds.update(cfg.nodes_of(s_) if s_ is not None else cfg.handler_nodes(x))
+    binds -= rendered
+    bad = []
+    for r in returns_of(fi):
+        if not (isinstance(r.value, ast.Name) and r.value.id == var):
+            continue
+        rn = [n for n in cfg.nodes_of(r)]
+        if not rn:
+            continue
+        through = rendered | cleared
+        srcs = ([cfg.entry] if var in _param_names(fi) else []) + [m for b in binds for m in cfg.succ[b]]
+        if not cfg.must_pass(through, srcs, rn):
+            bad.append(r)
+    ok = not bad
+    rep.check('R09.b', fkey(fi, 'no error is returned unrendered'), ok,
+              'every path on which %s returns %s as an HTTPException has run execute_error(...) / the default renderer' % (fi.name, var) if ok else
+              '%s can return %s without having rendered it: a path from a binding of %s (or the entry) reaches this return past neither '
+              'execute_error(...) / the default renderer nor a test that it is no HTTPException -- e.g. when the loop over the routes is '
+              'exhausted, or for a non-breaking error a later route hands back; the error goes out as constructed (text/plain), whatever '
+              'the client accepts' % (fi.qualname, var, var), fi.mod, bad[0] if bad else call)
 
 
 def check_adapt_override(rep, repo, err, base, msm, m):
@@ -2390,4 +2472,196 @@ def rule_e(rep, repo, err, base, fam):
                 (n_.func.attr != 'pop' or not n_.args or not isinstance(n_.args[0], ast.Constant) or n_.args[0].value in need)]
         rep.check('R09.e', fkey(m), bool(ok) and not dels and not pops, '%s.to_dict extends the super() result' % c.name if ok and not dels and not pops else
                   '%s.to_dict does not return the extended super().to_dict() (standard fields may be lost)' % c.name, err, m.node)
+        check_inherited_keys(rep, repo, c, m)
     rep.floor('R09.e', 4)
+
+
+# ------------------------------------------------------------------------- base / override agreement on the keys of to_dict()
+def _is_super_call(c, e, meth):
+    """``super(..).meth(..)`` / ``Base.meth(self, ..)`` written in class ``c``."""
+    if not (isinstance(e, ast.Call) and isinstance(e.func, ast.Attribute) and e.func.attr == meth):
+        return False
+    recv = e.func.value
+    if isinstance(recv, ast.Call) and isinstance(recv.func, ast.Name) and recv.func.id == 'super':
+        return True
+    return norm(recv) in [norm(b) for b in c.node.bases]
+
+
+def _next_method(repo, c, meth):
+    for k in repo.mro(c)[1:]:
+        if isinstance(k, ClassInfo) and meth in k.methods:
+            return k, k.methods[meth]
+    return None, None
+
+
+def _const_key(e):
+    return e.value if isinstance(e, ast.Constant) and isinstance(e.value, str) else None
+
+
+def _holder_events(m, h):
+    """What the method does to the keys of the mapping held in local ``h``: [(kind, key, node)] with kind in
+    'store' (h[K] = v, h.update(K=v), h.setdefault(K, v)), 'drop' (del h[K], h.pop(K..)), 'wipe' (clear / popitem / a store
+    or drop with a computed key counts as 'wipe' only for drops), 'open' (h.update(<mapping>): unknown keys are added)."""
+    out = []
+    for n in walk_body(m.node):
+        if isinstance(n, ast.Subscript) and isinstance(n.value, ast.Name) and n.value.id == h:
+            k = _const_key(n.slice)
+            if isinstance(n.ctx, ast.Store):
+                out.append(('store', k, n) if k is not None else ('open', None, n))
+            elif isinstance(n.ctx, ast.Del):
+                out.append(('drop', k, n) if k is not None else ('wipe', None, n))
+        elif isinstance(n, ast.Call) and isinstance(n.func, ast.Attribute) and isinstance(n.func.value, ast.Name) and n.func.value.id == h:
+            a = n.func.attr
+            if a == 'pop':
+                k = _const_key(n.args[0]) if n.args else None
+                out.append(('drop', k, n) if k is not None else ('wipe', None, n))
+            elif a in ('clear', 'popitem'):
+                out.append(('wipe', None, n))
+            elif a == 'setdefault' and n.args:
+                k = _const_key(n.args[0])
+                out.append(('store', k, n) if k is not None else ('open', None, n))
+            elif a == 'update':
+                for kw in n.keywords:
+                    out.append(('store', kw.arg, n) if kw.arg is not None else ('open', None, n))
+                for x in n.args:
+                    if isinstance(x, ast.Dict) and all(k_ is not None and _const_key(k_) is not None for k_ in x.keys):
+                        out.extend(('store', _const_key(k_), n) for k_ in x.keys)
+                    else:
+                        out.append(('open', None, n))
+    return out
+
+
+def guaranteed_keys(repo, c, m, _seen=None):
+    """(keys, open): the string keys the mapping returned by method ``m`` of class ``c`` holds on *every* normally returning
+    path (an under-approximation: what cannot be followed adds nothing), and whether some part of the mapping comes from
+    a place the analysis does not see into (then a key outside ``keys`` may still be present)."""
+    _seen = _seen or set()
+    if m in _seen:
+        return set(), True
+    _seen = _seen | {m}
+    cfg = cfg_of(m)
+
+    def of_expr(e):
+        keys, open_ = set(), False
+        if isinstance(e, (ast.DictComp, ast.IfExp)) or not isinstance(e, (ast.Dict, ast.Call)):
+            return keys, True
+        if isinstance(e, ast.Call) and not (isinstance(e.func, ast.Name) and e.func.id == 'dict'):
+            if _is_super_call(c, e, m.node.name):
+                kc, km = _next_method(repo, c, m.node.name)
+                return guaranteed_keys(repo, kc, km, _seen) if km is not None else (keys, True)
+            if call_tail(e) in ('copy', 'deepcopy') and (e.args or isinstance(e.func, ast.Attribute)):
+                return of_expr(e.args[0] if e.args else e.func.value)
+            return keys, True
+        try:
+            ls = layers_of_expr(e)
+        except AnalysisError:
+            return keys, True
+        for l in ls:
+            if l.kind == 'literal':
+                keys.update(k_ for k_ in l.keys if isinstance(k_, str))
+            elif l.node is e:
+                open_ = True
+            else:
+                k2, o2 = of_expr(l.node)
+                keys |= k2
+                open_ = open_ or o2
+        return keys, open_
+
+    rets = returns_of(m)
+    if not rets or _falls_off(m):
+        return set(), not rets
+    result, open_all = None, False
+    for r in rets:
+        if r.value is None:
+            return set(), False
+        v = r.value
+        if isinstance(v, ast.Name):
+            binds = assigned_value(m.node, v.id)
+            if len(binds) == 1 and binds[0][2] is None and isinstance(binds[0][0], ast.Assign):
+                keys, open_ = of_expr(binds[0][1])
+                rn = cfg.nodes_of(r)
+                evs = _holder_events(m, v.id)
+                if any(kind == 'open' for kind, k_, n_ in evs):
+                    open_ = True
+                for k_ in set(k_ for kind, k_, n_ in evs if kind == 'store'):
+                    # the stores of one key together: every path to the return makes one of them (a store that only some
+                    # paths make guarantees nothing)
+                    sn = [y for kind, k2, n_ in evs if kind == 'store' and k2 == k_ for y in cfg.nodes_of(stmt_of(m.mod, n_))]
+                    if sn and rn and cfg.must_pass(sn, dst=rn, normal_only=True):
+                        keys.add(k_)
+                for kind, k_, n_ in evs:
+                    if kind == 'wipe':
+                        keys = set()
+                    elif kind == 'drop':
+                        keys.discard(k_)
+            else:
+                keys, open_ = set(), True
+        else:
+            keys, open_ = of_expr(expand_expr(m, v, r))
+        result = keys if result is None else (result & keys)
+        open_all = open_all or open_
+    return result or set(), open_all
+
+
+def check_inherited_keys(rep, repo, c, m):
+    """Base / override agreement: a key that the override takes out of, or reads by subscript from, the mapping its base class's
+    method returned (``del ret[K]``, ``ret[K]``, ``ret.pop(K)`` without default -- a KeyError when K is missing, which no renderer
+    contains) is a key the inherited method stores on every path.  Accesses that tolerate the missing key are free:
+    ``pop(K, default)``, ``.get``, under ``K in ret``, inside ``try/except KeyError``, after an own store of K."""
+    meth = m.node.name
+    kc, km = _next_method(repo, c, meth)
+    if km is None:
+        return
+    holders = set()
+    for n in walk_body(m.node):
+        if isinstance(n, ast.Name) and isinstance(n.ctx, ast.Store):
+            binds = assigned_value(m.node, n.id)
+            if len(binds) == 1 and binds[0][2] is None and isinstance(binds[0][0], ast.Assign) and _is_super_call(c, binds[0][1], meth):
+                holders.add(n.id)
+    cfg = cfg_of(m)
+    hard = []
+    for n in walk_body(m.node):
+        k_, recv, node = None, None, n
+        if isinstance(n, ast.Subscript) and isinstance(n.ctx, (ast.Load, ast.Del)):
+            k_, recv = _const_key(n.slice), n.value
+        elif isinstance(n, ast.Call) and isinstance(n.func, ast.Attribute) and n.func.attr == 'pop' and len(n.args) == 1 and not n.keywords:
+            k_, recv = _const_key(n.args[0]), n.func.value
+        if k_ is None or recv is None:
+            continue
+        if isinstance(recv, ast.Name) and recv.id in holders:
+            h = recv.id
+        elif _is_super_call(c, recv, meth):
+            h = None
+        else:
+            continue
+        st = stmt_of(m.mod, n)
+        cs = conds(m, st)
+
+        def member(t, key=k_, h=h):
+            return isinstance(t, ast.Compare) and len(t.ops) == 1 and _const_key(t.left) == key and h is not None and norm(t.comparators[0]) == h
+        if has_cond(cs, lambda t: member(t) and isinstance(t.ops[0], ast.In), True) or \
+                has_cond(cs, lambda t: member(t) and isinstance(t.ops[0], ast.NotIn), False):
+            continue
+        if protected_by(m, n, 'KeyError') is not None:
+            continue
+        if h is not None:
+            own = [x for kind, kk, x in _holder_events(m, h) if kind == 'store' and kk == k_ and x is not n]
+            an = cfg.nodes_of(st)
+            sn = [y for x in own for y in cfg.nodes_of(stmt_of(m.mod, x)) if stmt_of(m.mod, x) is not st]
+            if sn and an and cfg.must_pass(sn, dst=an, normal_only=True):
+                continue
+        hard.append((k_, n))
+    if not hard:
+        return
+    keys, open_ = guaranteed_keys(repo, kc, km)
+    for k_, n in hard:
+        what = 'del' if isinstance(n, ast.Subscript) and isinstance(n.ctx, ast.Del) else 'pop' if isinstance(n, ast.Call) else 'read'
+        key = fkey(m, 'inherited key %s (%s)' % (k_, what))
+        if k_ in keys:
+            rep.ok('R09.e', key, '%s.%s stores %r on every path, the override may %s it' % (kc.name, meth, k_, what), m.mod, n)
+        elif open_:
+            raise AnalysisError('%s: cannot tell whether %s.%s always stores %r (part of the mapping is built out of sight)' % (
+                m.qualname, kc.name, meth, k_))
+        else:
+            rep.fail('R09.e', key, '%s of key %r of the inherited mapping, which %s.%s does not store on every path: KeyError inside every '
+                     'serialiser that uses to_dict()' % (what, k_, kc.name, meth), m.mod, n)
